@@ -19,7 +19,7 @@ ASSUMPTIONS = ["thread interleavings are sampled (yield injection + repetition),
                "the strict peer is the responder double of vf/noisepeer.py (dissononce cipher states, counters only move forward)",
                "besides the probe-level runs, 24 (quick) / 960 (thorough) runs, with thread switches injected inside the dispatchers, go through the library's real socket and asyncore dispatchers over loopback TCP",
                "senders start after the handshake completed, as applications do (the handshake thread's own writes are covered by C04)"]
-REQUIRED = ["core_stack_runs", "core_stack_ok", "real_big_cases", "real_big_ok", "real_big:socket", "real_big:asyncore", "real_backlog_cases", "real_backlog_ok", "real_backlog:local-disconnect", "real_backlog:peer-reset", "runs", "stanzas_sent", "stanzas_decrypted", "interleaved_runs", "yields_injected", "ping_thread_runs", "entry:top",
+REQUIRED = ["core_stack_other_logins", "core_stack_runs", "core_stack_ok", "real_big_cases", "real_big_ok", "real_big:socket", "real_big:asyncore", "real_backlog_cases", "real_backlog_ok", "real_backlog:local-disconnect", "real_backlog:peer-reset", "runs", "stanzas_sent", "stanzas_decrypted", "interleaved_runs", "yields_injected", "ping_thread_runs", "entry:top",
             "entry:sendIq", "entry:below-group", "early_sender_runs", "refused_during_handshake", "stalled_write_runs", "stalled_write_ok", "s2c_flood_runs", "s2c_flood_frames", "real_runs", "real_ok", "wire_bytes_equal", "real:socket", "real:asyncore"]
 TIMEOUT = {"quick": 400, "thorough": 3600}
 
@@ -735,7 +735,9 @@ def core_stack_run(acc, seed, tag):
     prof = tstack.make_profile("c11c_%s" % tag.replace("/", "_"), server_static=srv.static_public)
     T = tstack.Transport.__new__(tstack.Transport)
     T.wire = tstack.Wire()
-    T.stack = YowStack((T.wire, YowNoiseSegmentsLayer, YowNoiseLayer, YowCoderLayer), reversed=False, props={"profile": prof})
+    # (assembled without a props argument, the profile set afterwards: what getDefaultStack() and the demos do)
+    T.stack = YowStack((T.wire, YowNoiseSegmentsLayer, YowNoiseLayer, YowCoderLayer), reversed=False)
+    T.stack.setProp("profile", prof)
     T.noise = T.stack.getLayer(2)
     T.profile, T.server, T.net, T.net_stack = prof, None, None, None
     T.attach(srv)
@@ -768,6 +770,29 @@ def core_stack_run(acc, seed, tag):
                 errors.append((type(e).__name__, str(e)[:200]))
                 return
     ths = [threading.Thread(target=sender, args=(k, random.Random(r.randrange(1 << 30))), name="verif-core-sender-%d" % k) for k in range(nthreads)]
+
+    def other_accounts():
+        # other stacks of the same process (other accounts) start their logins meanwhile: each writes its own connection
+        # prologue, switching its own framing off and on around it
+        for j in range(4):
+            try:
+                srv2 = noisepeer.NoiseServer()
+                T2 = tstack.Transport.__new__(tstack.Transport)
+                T2.wire = tstack.Wire()
+                T2.stack = YowStack((T2.wire, YowNoiseSegmentsLayer, YowNoiseLayer, YowCoderLayer), reversed=False)
+                T2.stack.setProp("profile", tstack.make_profile("c11c2_%s_%d" % (tag.replace("/", "_"), j), server_static=srv2.static_public))
+                T2.noise = T2.stack.getLayer(2)
+                T2.profile, T2.server, T2.net, T2.net_stack = None, None, None, None
+                T2.wire.after_feed = lambda b: time.sleep(0.001)
+                T2.attach(srv2)
+                T2.auth()
+                T2.wait(lambda: len(srv2.out) > 0, 5)
+                T2.close()
+                acc.count("core_stack_other_logins")
+            except Exception as e:  # noqa
+                errors.append(("other-account:" + type(e).__name__, str(e)[:200]))
+                return
+    ths.append(threading.Thread(target=other_accounts, name="verif-core-other-accounts"))
     old_sw = sys.getswitchinterval()
     sys.setswitchinterval(r.choice([0.005, 0.00001]))
     yp = r.choice([0.0, 0.05, 0.2])
